@@ -39,6 +39,10 @@ pub struct Registry {
     pub substance_symbols: BTreeMap<String, String>,
 }
 
+/// How many aliases `canonicalize` follows before it settles for the
+/// name it has reached.
+const MAX_ALIAS_HOPS: usize = 64;
+
 impl Registry {
     fn lookup_exact(&self, name: &str) -> Option<Number> {
         if let Some(k) = self.base_units.get(name) {
@@ -80,7 +84,7 @@ impl Registry {
         }
     }
 
-    fn canonicalize_exact(&self, name: &str) -> Option<String> {
+    fn canonicalize_exact(&self, name: &str, hops: usize) -> Option<String> {
         if let Some(v) = self.base_unit_long_names.get(name) {
             return Some(v.clone());
         }
@@ -94,7 +98,12 @@ impl Registry {
         }
         if let Some(expr) = self.definitions.get(name) {
             if let Expr::Unit { ref name } = *expr {
-                if let Some(canonicalized) = self.canonicalize(&*name) {
+                // Aliases loaded at different times can refer to each
+                // other in a circle, so only follow so many of them.
+                if hops == 0 {
+                    return Some(name.clone());
+                }
+                if let Some(canonicalized) = self.canonicalize_hops(&*name, hops - 1) {
                     return Some(canonicalized);
                 } else {
                     return Some(name.clone());
@@ -105,13 +114,13 @@ impl Registry {
         Some(name.to_owned())
     }
 
-    fn canonicalize_with_prefix(&self, name: &str) -> Option<String> {
-        if let Some(v) = self.canonicalize_exact(name) {
+    fn canonicalize_with_prefix(&self, name: &str, hops: usize) -> Option<String> {
+        if let Some(v) = self.canonicalize_exact(name, hops) {
             return Some(v);
         }
         for &(ref prefix, ref value) in &self.prefixes {
             if let Some(name) = name.strip_prefix(prefix) {
-                if let Some(canonicalized) = self.canonicalize_exact(name) {
+                if let Some(canonicalized) = self.canonicalize_exact(name, hops) {
                     let mut prefix = prefix;
                     for &(ref other, ref otherval) in &self.prefixes {
                         if other.len() > prefix.len() && value == otherval {
@@ -141,13 +150,17 @@ impl Registry {
     /// * `mm` -> `millimeter` (prefixes are converted to long form)
     /// * `micron` -> `micrometer` (aliases are expanded)
     pub fn canonicalize(&self, name: &str) -> Option<String> {
-        let res = self.canonicalize_with_prefix(name);
+        self.canonicalize_hops(name, MAX_ALIAS_HOPS)
+    }
+
+    fn canonicalize_hops(&self, name: &str, hops: usize) -> Option<String> {
+        let res = self.canonicalize_with_prefix(name, hops);
         if res.is_some() {
             return res;
         }
 
         if let Some(name) = name.strip_suffix('s') {
-            self.canonicalize_with_prefix(name)
+            self.canonicalize_with_prefix(name, hops)
         } else {
             None
         }
